@@ -18,7 +18,8 @@ RULE = ("WSDLs with 0..3 declared header parts (simple and complex, each in its 
         ' ; bare marker elements and empty children in caller-made headers'
         ' ; empty and falsy nonces; header parts declared by type'
         ' ; entries added to the soapheaders option and cleared'
-        ' ; a Security object without tokens; LocalTimezone under a TZ with daylight saving')
+        ' ; a Security object without tokens; LocalTimezone under a TZ with daylight saving'
+        ' ; a header Element attached to the caller\'s document')
 ASSUMPTIONS = ["a header value is a single value per declared part (list-valued header values are outside the "
                "property's alphabet: Binding.mkheader returns a list for them, see DESIGN.md D15)"]
 PARTIAL = [{"theorem": "entry contents", "missing": "what each entry looks like (marshalled per schema, token children, "
